@@ -88,6 +88,18 @@ pub fn arch(job_path: &str, out_path: &str, dir: &str) -> Result<(), String> {
             let path = format!("{dir}/{id}.zip");
             build_result_archive(sets.clone(), &path, bn.to_string().as_str(), formulae).map_err(|e| e.to_string())?;
             m.insert("archive".into(), json!(path));
+            // the archive without results (model + formula list only)
+            {
+                use biodivine_hctl_model_checker::generate_output::build_initial_archive;
+                let ipath = format!("{dir}/{id}-initial.zip");
+                let fl: Vec<String> = job["formulae"].as_array().map(|a| a.iter().map(|x| x.as_str().unwrap_or("").to_string()).collect()).unwrap_or_default();
+                build_initial_archive(&ipath, bn.to_string().as_str(), fl).map_err(|e| e.to_string())?;
+                let (mut names, texts) = zip_entries(&ipath)?;
+                names.sort();
+                let bn3 = BooleanNetwork::try_from(texts.get("model.aeon").ok_or("initial archive without model")?.as_str())?;
+                m.insert("initial".into(), json!({"entries": names, "net": describe_network(&bn3),
+                    "formulae": texts.get("formulae.txt").map(|s| s.lines().map(|l| l.to_string()).collect::<Vec<_>>()).unwrap_or_default()}));
+            }
             let back = read_archive(&path, k)?;
             m.insert("back".into(), back.clone());
             // effect as wild-card context: in-memory vs reloaded
